@@ -184,6 +184,24 @@ def signals_long(lengths):
         yield [-32768] * (n // 2) + [32767] * (n - n // 2)                      # step between the limits
 
 
+def block_menus(n):
+    """the block patterns real use produces (the tool reads 4096-byte = 2048-frame blocks) and their neighbours: a signal of
+    real size cut into equal blocks of 1 .. 4096 samples, into halves, with a single sample first / last, with growing blocks"""
+    out = []
+    for b in (1, 2, 255, 256, 1000, 1023, 1024, 1025, 2047, 2048, 2049, 4096):
+        if b < n and (b > 1 or n <= 1100):
+            out.append([b] * (n // b) + ([n % b] if n % b else []))
+    out += [[n // 2, n - n // 2], [1, n - 1], [n - 1, 1], [1023, 1, n - 1024], [n - 1024, 1, 1023]]
+    g, acc = [], 0
+    k = 1
+    while acc + k < n:
+        g.append(k)
+        acc += k
+        k *= 2
+    out.append(g + [n - acc])
+    return [c for c in out if all(x > 0 for x in c) and sum(c) == n]
+
+
 def bounded_compositions(n, max_cuts):
     for c in range(0, max_cuts + 1):
         for cuts in itertools.combinations(range(1, n), c):
@@ -306,7 +324,7 @@ class Check(CheckBase):
     rule = ("per filter (FirFilter taps 1,2,3,5 and five tap sets with exact zeros at the end / start / inside / everywhere / padding an 8-tap table x every delay offset x {int16,float64}; ChickSysCustomFirFilter 5 tap sets (two with zero taps) x "
             "every delay; IirFilter 5 coefficient sets; the 5 presets) and per signal (all of {-32768,-1,0,1,32767}^n for "
             "n<=4 quick / 5 thorough; ramp, impulse, alternating extremes, DC at the limit, step, of length 8,10 quick / "
-            "8,10,12 thorough; length 24 with all splits of <=3 cut points): ALL 2^(n-1) ordered block splits, each followed "
+            "8,10,12 thorough; length 24 with all splits of <=3 cut points; length 1030 and 4100 (thorough also 2050, 9000) under a menu of ~15 block patterns: equal blocks of 1..4096 samples, halves, a single sample first / last / in the middle, doubling blocks): ALL 2^(n-1) ordered block splits (menu for the long ones), each followed "
             "by get_remaining(), compared with the one-block run (exact for int16, allclose for float); total length == n; "
             "16-bit presets compared with a saturating reference where the unsaturated value leaves the int16 range; the "
             "same after process(garbage)+reset_state(), and after a complete earlier stream (fed and flushed) through the same object. states = schedules (splits) executed, transitions = process/flush "
@@ -325,6 +343,7 @@ class Check(CheckBase):
             out.append({"filter": d, "part": "short"})
             out.append({"filter": d, "part": "long"})
             out.append({"filter": d, "part": "reset"})
+            out.append({"filter": d, "part": "blocks"})
         return out
 
     def _subjects(self, rep):
@@ -371,6 +390,10 @@ class Check(CheckBase):
             if shard["part"] == "short":
                 for x in signals_exhaustive(4 if self.quick else 5):
                     check_signal(ns, d, x, list(RF.compositions(len(x))), sub, subject, False)
+            elif shard["part"] == "blocks":
+                # signals of real size (an implementation may treat long blocks differently from short ones)
+                for x in signals_long((1030, 4100) if self.quick else (1030, 2050, 4100, 9000)):
+                    check_signal(ns, d, x, block_menus(len(x)), sub, subject, False)
             elif shard["part"] == "long":
                 for x in signals_long((8, 10) if self.quick else (8, 10, 12)):
                     check_signal(ns, d, x, list(RF.compositions(len(x))), sub, subject, False)
